@@ -634,8 +634,10 @@ Step(t) ==
     /\ (LaneStep(t) /\ UNCHANGED RF) \/ RefStep(t)
     /\ uaf' = IF uaf = "" /\ disposed /\ Touches(t) THEN pc[t] ELSE uaf
     \* the ledger: what t retained / released, took over from or handed to a role bit, the external count, a targeter
-    /\ LET raw == hand[t] + (rc' - rc) + (Roles(xref, childAlive, st) - Roles(xref', childAlive', st'))
-           s == Settle(raw, parked, pc'[t] \in RestPcs) IN
+    \* a redirected item handed to the root queue carries the +2 of _dispatch_async_redirect_wrap with it
+    /\ LET wrapped == IF Redirected(root') > Redirected(root) THEN 2 * (Redirected(root') - Redirected(root)) ELSE 0
+           raw == hand[t] + (rc' - rc) + (Roles(xref, childAlive, st) - Roles(xref', childAlive', st')) - wrapped
+           s == Settle(raw, parked + wrapped, pc'[t] \in RestPcs) IN
        /\ hand' = [hand EXCEPT ![t] = s.hand] /\ parked' = s.parked
 Next == \E t \in Threads : Step(t)
 Spec == Init /\ [][Next]_vars
